@@ -40,6 +40,9 @@ func init() {
 				return bad("IsPalindromic(%q) = %v, specification %v", cs.S, got, cs.Pal)
 			}
 			if cs.Hasvars {
+				// a call on text the function refuses (RNA spelling, letters that are no codes) is no business of the
+				// next call: made before every expansion
+				_, _ = variants.AllVariantsIUPAC([]string{"AUGN", "acguy", "NNXK", "U", "TBD-V"}[len(cs.S)%5])
 				got, err := variants.AllVariantsIUPAC(cs.S)
 				if err != nil {
 					return bad("AllVariantsIUPAC(%q) error %v", cs.S, err)
@@ -164,6 +167,9 @@ func c11Record(tier string, seed int64, emit func(interface{})) {
 		}
 		s := string(b)
 		rc := transform.ReverseComplement(s)
+		if i%2 == 0 {
+			_, _ = variants.AllVariantsIUPAC([]string{"AUGN", "acguy", "NNXK", "U", "TBD-V"}[i%5]) // see the replay
+		}
 		v, err1 := variants.AllVariantsIUPAC(s)
 		vrc, err2 := variants.AllVariantsIUPAC(rc)
 		if err1 != nil || err2 != nil {
